@@ -1,8 +1,9 @@
 (* Sem/PropCount.v — C02: minProperties / maxProperties on an object with declared properties.
    The reference validator counts the members of the document.  The generated Validate counts the members of the value
-   marshalled back from the decoded struct (Sem/Schema.v [rt]): undeclared members are gone, optional members holding a
-   zero value or an empty map are gone, absent arrays and absent required members are back as null.
-   The two counts agree on the documents whose members are exactly the declared properties that [rt] keeps ([plain]);
+   marshalled back from the decoded struct: the declared properties as Sem/Schema.v [rt] renders them — optional members
+   holding a zero value or an empty map are gone, absent arrays and absent required members are back as null — plus the
+   undeclared members, which a type with property counts keeps in a map of its own.
+   The two counts agree on the documents whose declared members are exactly those that [rt] keeps ([plain]);
    off that set they differ in both directions (the two known findings c02/...[property-count-of-remarshalled-object]). *)
 From GS Require Import Base.Str Base.Json Sem.Schema Sem.SchemaLemmas.
 From Coq Require Import Lia.
@@ -11,15 +12,18 @@ Definition count_ok (mn mx : option Z) (n : nat) : bool := opt_le mn (Z.of_nat n
 
 Definition ref_counts (mn mx : option Z) (d : json) : bool :=
   match d with JObj l => count_ok mn mx (length l) | _ => false end.
-Definition gen_counts (ps : list (str * bool * schema)) (mn mx : option Z) (d : json) : bool :=
-  match rt (SObj ps) d with JObj l' => count_ok mn mx (length l') | _ => false end.
-
 Definition pname (p : str * bool * schema) : str := fst (fst p).
+Definition declared (ps : list (str * bool * schema)) (kv : str * json) : bool := mem (fst kv) (map pname ps).
 
-(* every member is a declared property; a declared property is either absent — and then neither required nor an array —
-   or present with a value that marshalling keeps *)
+Definition gen_counts (ps : list (str * bool * schema)) (mn mx : option Z) (d : json) : bool :=
+  match d, rt (SObj ps) d with
+  | JObj l, JObj l' => count_ok mn mx (length l' + length (filter (fun kv => negb (declared ps kv)) l))
+  | _, _ => false
+  end.
+
+(* a declared property is either absent — and then neither required nor an array — or present with a value that
+   marshalling keeps *)
 Definition plain (ps : list (str * bool * schema)) (l : list (str * json)) : bool :=
-  forallb (fun kv => mem (fst kv) (map pname ps)) l &&
   forallb (fun p => let '(name, req, s') := p in
                     match assoc name l with
                     | None => negb (req || is_arr s')
@@ -33,7 +37,7 @@ Definition present (l : list (str * json)) (p : str * bool * schema) : bool :=
 Lemma member_plain ps l : plain ps l = true ->
   forall p, In p ps -> length (member l p) = if present l p then 1 else 0.
 Proof.
-  unfold plain. intro H. apply andb_prop in H as [_ H]. rewrite forallb_forall in H. intros p Hp. specialize (H p Hp).
+  unfold plain. intro H. rewrite forallb_forall in H. intros p Hp. specialize (H p Hp).
   destruct p as [[name req] s']. unfold member, present, pname. cbn [fst] in *.
   destruct (assoc name l) as [v|].
   - destruct v; try discriminate;
@@ -55,22 +59,27 @@ Proof.
   intro X. apply Hn. rewrite in_map_iff in *. destruct X as [x [E Hx]]. exists x. split; [exact E|]. apply filter_In in Hx. tauto.
 Qed.
 
+Lemma length_partition {A} (f : A -> bool) l : length l = length (filter f l) + length (filter (fun x => negb (f x)) l).
+Proof. induction l as [|a r IH]; [reflexivity|]. cbn [filter length]. destruct (f a); cbn [negb length]; lia. Qed.
+
 Theorem counts_agree ps mn mx l :
   NoDup (map pname ps) -> NoDup (map fst l) -> plain ps l = true ->
   gen_counts ps mn mx (JObj l) = ref_counts mn mx (JObj l).
 Proof.
   intros NDp NDl Hp. unfold gen_counts, ref_counts. rewrite rt_obj. f_equal.
   rewrite (length_flat_map_member ps l (member_plain ps l Hp)).
-  rewrite <- (map_length pname (filter (present l) ps)), <- (map_length fst l).
+  rewrite (length_partition (declared ps) l). f_equal.
+  rewrite <- (map_length pname (filter (present l) ps)), <- (map_length fst (filter (declared ps) l)).
   apply Nat.le_antisymm.
   - apply NoDup_incl_length; [apply NoDup_map_filter; exact NDp|].
-    intros k Hk. rewrite in_map_iff in Hk. destruct Hk as [p [<- Hf]]. apply filter_In in Hf as [_ Hf].
+    intros k Hk. rewrite in_map_iff in Hk. destruct Hk as [p [<- Hf]]. apply filter_In in Hf as [Hin Hf].
     unfold present in Hf. destruct (assoc (pname p) l) as [v|] eqn:E; [|discriminate].
-    apply assoc_In in E. change (pname p) with (fst (pname p, v)). apply in_map. exact E.
-  - apply NoDup_incl_length; [exact NDl|].
-    intros k Hk. unfold plain in Hp. apply andb_prop in Hp as [Ha _]. rewrite forallb_forall in Ha.
-    rewrite in_map_iff in Hk. destruct Hk as [kv [<- Hkv]]. specialize (Ha kv Hkv). apply mem_In in Ha.
-    rewrite in_map_iff in Ha. destruct Ha as [p [En Hin]]. rewrite in_map_iff. exists p. split; [exact En|].
+    apply assoc_In in E. rewrite in_map_iff. exists (pname p, v). split; [reflexivity|].
+    apply filter_In. split; [exact E|]. unfold declared. cbn [fst]. apply mem_In. apply in_map. exact Hin.
+  - apply NoDup_incl_length; [apply NoDup_map_filter; exact NDl|].
+    intros k Hk. rewrite in_map_iff in Hk. destruct Hk as [kv [<- Hkv]]. apply filter_In in Hkv as [Hkv Hd].
+    unfold declared in Hd. apply mem_In in Hd. rewrite in_map_iff in Hd. destruct Hd as [p [En Hin]].
+    rewrite in_map_iff. exists p. split; [exact En|].
     apply filter_In. split; [exact Hin|]. unfold present. rewrite En.
     destruct (assoc (fst kv) l) eqn:E; [reflexivity|]. apply assoc_None_keys in E. exfalso. apply E. apply in_map. exact Hkv.
 Qed.
